@@ -36,7 +36,8 @@ CLAIM = {
              "incl. nil-returning and nested expressions) building and draining with the documented loop yields exactly the list of "
              "(key, value) pairs given by take-while, drop-while, filter, map-on-values, append and flat-map, predicates/mappings/join "
              "functions being applied to the key and value of the same element; Map leaves the key list unchanged; ForEach visits that "
-             "list in order up to and including the first failing callback and returns its error. The model is run against the real "
+             "list in order up to and including the first failing callback and returns its error, the iterator then standing on the element "
+             "that failed (no further Next()). The model is run against the real "
              "iterators on all trees up to level 2 over a code alphabet with keys different from values and on random deeper trees; the "
              "observation is also checked directly against the list denotation."),
     "design_ref": "DESIGN.md 2.3, 3/C15",
